@@ -101,6 +101,8 @@ class PES(MPEGPacket):
         return r + "\n" f"   PES {_ext}: Stream ID={self.streamid:#0X}  PESData Len={len(self.pesdata)}"
 
     def __eq__(self, __value: object) -> bool:
+        if not isinstance(__value, PES):
+            return False
         if self.streamid != __value.streamid or self.pesdata != __value.pesdata:
             return False
         if (
